@@ -129,10 +129,21 @@ def oracle(c, stats):
         x, gkf, err = run(nn, c["alg"])
         if err:
             return ["%s.%s" % (tag, err)]
+        if "error" in x and c["alg"] == "envelope":
+            x2, _, err2 = run(nn, "gso")
+            if not err2 and "error" not in x2 and x2["summary"]["defect"] == d:
+                return ["%s.envelope_free: envelope refuses a free network of defect %d that gso adjusts: %s" % (tag, d, x["error"]["descriptions"])]
         if "error" in x:
             return ["%s.refused: free network with an admissible constraint set (defect %d) was refused: %s" %
                     (tag, d, x["error"]["descriptions"])]
         if x["summary"]["defect"] != d:
+            if c["alg"] == "envelope":
+                # the recorded envelope finding (C02 / C09 / C19: rank of some well-posed free networks misjudged) only if
+                # another algorithm reports the right defect for the same input
+                x2, _, err2 = run(nn, "gso")
+                if not err2 and "error" not in x2 and x2["summary"]["defect"] == d:
+                    return ["%s.envelope_free: envelope reports defect %d for a free network of defect %d (gso: %d)"
+                            % (tag, x["summary"]["defect"], d, x2["summary"]["defect"])]
             fails.append("%s.defect: reported %d, truth Jacobian says %d" % (tag, x["summary"]["defect"], d))
         # within the run: corrections of constrained coordinates
         dump, crash = netrun.net_driver(gkf, c["alg"])
@@ -209,6 +220,15 @@ def oracle(c, stats):
     if set(c1) != set(c2):
         fails.append("pair.points: %s vs %s" % (sorted(c1), sorted(c2)))
     has_az = any(o["t"] == "azimuth" for cl in net["clusters"] if cl["k"] == "obs" for o in cl["obs"])
+    # reductions of zenith angles with instrument heights are refined only while they change by more than 0.1 cc
+    # (refine_obsdh_reductions): each run may keep 0.1 cc * sight length in a height (as in C06 / C13)
+    tolh = 1e-5
+    Pm = nm.pmap(net)
+    for cl in net["clusters"]:
+        if cl["k"] == "obs":
+            for o in cl["obs"]:
+                if o["t"] == "z-angle" and (o.get("from_dh") or o.get("to_dh") or cl.get("from_dh")):
+                    tolh = max(tolh, 1e-5 + 2.0 * 1.571e-7 * nm.hdist(Pm[cl["from"]], Pm[o["to"]]))
     for a, b in itertools.combinations(ids, 2):
         if "x" in c1[a] and "x" in c1[b] and "x" in c2[a] and "x" in c2[b]:
             d1 = math.hypot(c1[a]["x"] - c1[b]["x"], c1[a]["y"] - c1[b]["y"])
@@ -219,7 +239,7 @@ def oracle(c, stats):
         if "z" in c1[a] and "z" in c1[b] and "z" in c2[a] and "z" in c2[b]:
             h1 = c1[a]["z"] - c1[b]["z"]
             h2 = c2[a]["z"] - c2[b]["z"]
-            if abs(h1 - h2) > 1e-5:
+            if abs(h1 - h2) > tolh:
                 fails.append("pair.shape: height difference %s-%s %.7f vs %.7f" % (a, b, h1, h2))
                 break
     return fails
